@@ -57,8 +57,8 @@ type Case struct {
 	Updates []Upd  `json:"updates"`
 	Sched   []int  `json:"sched"`
 	Note    string `json:"note,omitempty"`
-	// Statistical > 0: not a schedule but the free-running control with that many pairs
-	Statistical int `json:"statistical,omitempty"`
+	// Stat != nil: not a schedule but a run of a statistical engine (stat_test.go) with these parameters
+	Stat *StatParams `json:"stat,omitempty"`
 	// observed
 	Routes [][]int      `json:"routes,omitempty"` // label set -> group ids
 	Final  []GroupAlert `json:"final,omitempty"`
@@ -475,44 +475,6 @@ func genCases(env vh.Env, r *vh.Rand) []Case {
 
 func cloneUpds(u []Upd) []Upd { return append([]Upd(nil), u...) }
 
-// statistical control WITHOUT hooks: free-running workers (GOMAXPROCS as is), many back-to-back pairs.
-// Supporting evidence only: counts how many groups end up holding the older version.
-func statRun(t *testing.T, pairs int) (reordered, lost int) {
-	synctest.Test(t, func(t *testing.T) {
-		rig := dconc.NewRig(t, configs[1], nil, nil, time.Hour, 0)
-		defer rig.Close()
-		synctest.Wait()
-		t0 := time.Now()
-		const batch = 50 // stay below the subscriber channel's buffer (200)
-		want := map[model.Fingerprint]int64{}
-		for b := 0; b < pairs; b += batch {
-			for i := b; i < b+batch && i < pairs; i++ {
-				ls := model.LabelSet{"alertname": "S", "i": model.LabelValue(strconv.Itoa(i))}
-				for k := 0; k < 2; k++ {
-					a := &alert.Alert{Alert: model.Alert{Labels: ls.Clone(), Annotations: model.LabelSet{"v": model.LabelValue(strconv.Itoa(k))},
-						StartsAt: t0.Add(-time.Minute), EndsAt: t0.Add(time.Duration(5+k) * time.Minute)}, UpdatedAt: t0.Add(time.Duration(2*i+k+1) * time.Microsecond), Timeout: true}
-					if err := rig.Alerts.Put(context.Background(), a); err != nil {
-						t.Fatal(err)
-					}
-					want[ls.Fingerprint()] = a.UpdatedAt.UnixNano()
-				}
-			}
-			synctest.Wait()
-		}
-		seen := map[model.Fingerprint]bool{}
-		for _, g := range rig.Groups() {
-			for _, a := range g.Alerts {
-				seen[a.Fingerprint()] = true
-				if a.UpdatedAt.UnixNano() != want[a.Fingerprint()] {
-					reordered++
-				}
-			}
-		}
-		lost = len(want) - len(seen)
-	})
-	return reordered, lost
-}
-
 func TestCheck(t *testing.T) {
 	env := vh.GetEnv()
 	run := vh.NewRun(env, "AM.Run.C14Run")
@@ -532,11 +494,8 @@ func TestCheck(t *testing.T) {
 	}
 	for i := range cases {
 		c := &cases[i]
-		if c.Statistical > 0 {
-			re, lost := statRun(t, c.Statistical)
-			if re > 0 || lost > 0 {
-				run.Violate("older-update-overwrites-newer", fmt.Sprintf("free-running workers: %d reordered, %d lost of %d pairs", re, lost, c.Statistical), c)
-			}
+		if c.Stat != nil {
+			judgeStat(t, run, *c.Stat)
 			continue
 		}
 		if c.W > realWorkers() {
@@ -564,20 +523,35 @@ func TestCheck(t *testing.T) {
 		}
 	}
 	if env.Replay == "" {
-		pairs := env.N(2000, 5)
-		re, lost := statRun(t, pairs)
-		run.Rep.Distribution["statistical_control_without_hooks"] = map[string]int{"pairs": pairs, "groups_holding_older_version": re, "lost": lost,
-			"gomaxprocs": runtime.GOMAXPROCS(0), "ingestion_workers": realWorkers()}
-		if re > 0 {
-			run.Violate("older-update-overwrites-newer", fmt.Sprintf("free-running workers (no hooks): %d of %d back-to-back fire/refresh pairs left the group holding the older version", re, pairs),
-				Case{Statistical: pairs})
-		}
-		if lost > 0 {
-			run.Violate("update-lost", fmt.Sprintf("free-running workers: %d label sets missing from their group", lost), Case{Statistical: pairs})
+		for _, p := range statPlan(env) {
+			judgeStat(t, run, p)
 		}
 	}
-	rule := "hook-driven schedules on the real dispatcher: exhaustive words over 2 workers x <=3 updates, random for 2-4 workers x 3-8 updates of two interleaved label sets over 3 route configs (one group / group-by-all / two groups per alert); non-trivial = at least two updates were in flight (received, not yet inserted) at the same time; plus a free-running statistical control"
+	rule := "hook-driven schedules on the real dispatcher: exhaustive words over 2 workers x <=3 updates, random for 2-4 workers x 3-8 updates of two interleaved label sets over 3 route configs (one group / group-by-all / two groups per alert); non-trivial = at least two updates were in flight (received, not yet inserted) at the same time; plus two judged statistical engines outside synctest (real worker pool fed by concurrent submitters; direct barrier-released inserts into one group)"
 	if err := run.Finish(strings.TrimSpace(rule)); err != nil {
 		t.Fatal(err)
+	}
+}
+
+// statPlan: the statistical engines of one run.
+func statPlan(env vh.Env) []StatParams {
+	return []StatParams{
+		{Engine: "pipeline", Rounds: env.N(1500, 6), Submitters: 4, PerRound: 8, Note: replayNote},
+		{Engine: "direct", Rounds: env.N(150000, 6), Racers: 2, Note: replayNote},
+		{Engine: "direct", Rounds: env.N(100000, 6), Racers: 3, Note: replayNote},
+	}
+}
+
+func judgeStat(t *testing.T, run *vh.Run, p StatParams) {
+	r := runStat(t, p)
+	name := fmt.Sprintf("statistical_%s_%d", p.Engine, p.Racers)
+	run.Rep.Distribution[name] = map[string]any{"params": p, "rounds_run": r.Rounds, "updates": r.Updates, "groups_holding_older_version": r.Reordered,
+		"lost": r.Lost, "millis": r.Millis, "gomaxprocs": runtime.GOMAXPROCS(0), "ingestion_workers": realWorkers()}
+	if r.Reordered > 0 {
+		run.Violate("older-update-overwrites-newer", fmt.Sprintf("%s engine (real goroutines, no hooks): %d stored versions older than the last submitted one after %d rounds / %d updates; %s",
+			p.Engine, r.Reordered, r.Rounds, r.Updates, r.First), Case{Stat: &p, Note: replayNote})
+	}
+	if r.Lost > 0 {
+		run.Violate("update-lost", fmt.Sprintf("%s engine: %d label sets missing from their group", p.Engine, r.Lost), Case{Stat: &p, Note: replayNote})
 	}
 }
